@@ -191,7 +191,6 @@ def render_def(d, menu):
 def render_part(scns, menu):
     """returns (text, {name: (first line, last line)})"""
     out = ["// GENERATED by bin/lib/c_derive.py from the definitions TLC emitted (spec/MC_DeriveModel.tla). Do not edit.",
-           "#![allow(dead_code, unused_imports, non_camel_case_types)]",
            "use avro_verif_harness::c17::{Runner, run_type};", ""]
     spans = {}
     for s in scns:
@@ -219,7 +218,7 @@ def render_corpus(scns, menu, dropped=()):
     spans = {}
     for k in range(PARTS):
         text, sp = render_part([s for s in live if int(s["name"][1:], 16) % PARTS == k], menu)
-        f = CORPUS / f"part{k}" / "src" / "lib.rs"
+        f = CORPUS / f"part{k}" / "generated.rs"
         if not f.exists() or f.read_text() != text:
             f.write_text(text)
         spans[k] = sp
@@ -256,10 +255,23 @@ def build_corpus(scns, menu):
     raise vf.ToolError(f"generated corpus still does not compile after dropping {len(dropped)} definitions")
 
 
+_T = [0.0]
+
+
+def stage(name):
+    import time as _t
+    now = _t.time()
+    if _T[0]:
+        vf.log(f"{name}: +{now - _T[0]:.1f}s")
+    _T[0] = now
+
+
 def run(prop, tier, seed, replay=None):
     rep = vf.Report(prop, tier, seed)
+    stage("start")
     vf.build_harness()
     work = vf.fresh_workdir(f"{prop}-{tier}")
+    stage("harness build")
     rng = random.Random(seed)
     # the context machine: all valid graphs; a seed-chosen slice of them becomes concrete scenarios
     ctx_scns = []
@@ -324,11 +336,13 @@ def run(prop, tier, seed, replay=None):
     finally:
         fcntl.flock(lockf, fcntl.LOCK_UN)
         lockf.close()
+    stage("model checking + execution")
     events = [l for l in ev_file.read_text().splitlines() if l.strip()]
     if len(events) != len(scns):
         raise vf.ToolError(f"corpus binary recorded {len(events)} events for {len(scns)} scenarios")
     verdicts, st, tr = vf.judge_events(work, "Trace_Derive.tla", "Trace_Derive.cfg", events, chunk=25, jobs=4)
     rep.add_states(st, tr)
+    stage("judging")
     evs = [json.loads(e) for e in events]
     rep.cov["traces_validated_against_impl"] = len(events)
     rep.cov["evaluations"] = sum(len(e["vals"]) for e in evs)
@@ -347,6 +361,29 @@ def run(prop, tier, seed, replay=None):
         "spec/AvroBinary.tla is the byte-level oracle; harness sv.rs / c17.rs (schema -> term projection, capturing serializer) are trusted to record faithfully",
         "bin/lib/c_derive.py renders definitions to Rust source; a definition the macro rejects is dropped and reported as drift",
     ]
+
+    # binding self-test: a corrupted recording must be rejected by the trace spec
+    if not replay:
+        dirty = {v["id"] for v in verdicts}
+        victims = [e for e in evs if e["id"] not in dirty and e["supported"] and e["schema"]["ok"]
+                   and e["schema"]["term"].get("k") == "record" and e["schema"]["term"]["fields"]
+                   and e["vals"] and e["vals"][0]["runs"] and e["vals"][0]["runs"][0]["de"]["ok"]][:3]
+        if len(victims) == 3:
+            a, b, c = (json.loads(json.dumps(x)) for x in victims)
+            a["schema"]["term"]["fields"][0]["name"] += "_x"                          # the derived schema
+            b["again"]["term"]["fields"] = b["again"]["term"]["fields"][1:]           # the second call
+            c["vals"][0]["runs"][0]["de"]["back"] = {"c": "unit_struct", "name": "Corrupted"}   # a value read back
+            for i, x in enumerate((a, b, c)):
+                x["id"] = i
+            st_work = work / "selftest"
+            (st_work / "spec").mkdir(parents=True)
+            for f in (work / "spec").iterdir():
+                (st_work / "spec" / f.name).write_bytes(f.read_bytes())
+            sv, _, _ = vf.judge_events(st_work, "Trace_Derive.tla", "Trace_Derive.cfg", [json.dumps(x) for x in (a, b, c)], chunk=10, jobs=1)
+            rejected = {v["id"] for v in sv if any(cl.startswith("C17:") for cl in v.get("fail", []))}
+            rep.cov["binding_selftest"] = {"corrupted_events": 3, "rejected": len(rejected)}
+            if rejected != {0, 1, 2}:
+                raise vf.ToolError(f"binding self-test: corrupted recordings were not all rejected ({sorted(rejected)})")
 
     def replay_of(i):
         return {"scenario": {k: scns[i][k] for k in ("defs", "root", "grp", "exp", "vals")}, "event": evs[i]}
